@@ -227,6 +227,133 @@ pub fn check_bytes_mode(b: &[u8], context: &str, allow_cdata: bool) -> Result<St
     })
 }
 
+
+// ---------------------------------------------------------------------------------------------
+// accessors on tags built part by part: "accessors succeed whenever the underlying bytes are valid UTF-8" is a
+// statement about the bytes *of that name / attribute*, not about the whole tag or the whole input. A tag is
+// assembled from a name and attributes known by construction, an invalid byte is planted in at most one part, and
+// every other part must still be returned, with the expected text.
+
+#[derive(Clone, Debug, serde::Serialize, serde::Deserialize)]
+pub struct TagCase {
+    pub end_tag: bool,
+    pub name: String,
+    /// (key, value, quote: 0 none | 1 double | 2 single)
+    pub attrs: Vec<(String, String, u8)>,
+    /// part that receives the invalid byte: None, Some(0) = the name, Some(2k+1) = key of attribute k,
+    /// Some(2k+2) = value of attribute k; for an end tag Some(1) = garbage after the name
+    pub corrupt: Option<usize>,
+    pub bad_byte: u8,
+    pub at: usize,
+}
+
+fn plant(part: &str, byte: u8, at: usize) -> Vec<u8> {
+    let mut b = part.as_bytes().to_vec();
+    // never before the first character: a tag name must begin with an ASCII letter to be a tag at all
+    let mut pos = if b.is_empty() { 0 } else { 1 + at % b.len() };
+    while !part.is_char_boundary(pos) {
+        pos -= 1;
+    }
+    b.insert(pos, byte);
+    b
+}
+
+pub fn check_tag(case: &TagCase) -> Result<(), String> {
+    let part = |text: &str, index: usize| -> Vec<u8> {
+        if case.corrupt == Some(index) {
+            plant(text, case.bad_byte, case.at)
+        } else {
+            text.as_bytes().to_vec()
+        }
+    };
+    let mut input: Vec<u8> = b"t".to_vec();
+    input.extend_from_slice(if case.end_tag { b"</" } else { b"<" });
+    input.extend(part(&case.name, 0));
+    if case.end_tag {
+        if case.corrupt == Some(1) {
+            input.extend_from_slice(&[b' ', case.bad_byte, 0xfe]);
+        }
+    } else {
+        for (k, (key, value, quote)) in case.attrs.iter().enumerate() {
+            input.push(b' ');
+            input.extend(part(key, 2 * k + 1));
+            input.push(b'=');
+            let q: &[u8] = match quote {
+                1 => b"\"",
+                2 => b"'",
+                _ => b"",
+            };
+            input.extend_from_slice(q);
+            input.extend(part(value, 2 * k + 2));
+            input.extend_from_slice(q);
+        }
+    }
+    input.extend_from_slice(b">u");
+    let mut t = Tokenizer::new(input.clone());
+    let first = t.next();
+    if !matches!(first, Ok(TokenType::TextToken)) {
+        return Err(format!("'{}': first token is {:?}, expected the text 't'", show(&input), first));
+    }
+    let tag = t.next();
+    let expected_kind = if case.end_tag { TokenType::EndTagToken } else { TokenType::StartTagToken };
+    if !matches!(&tag, Ok(k) if std::mem::discriminant(k) == std::mem::discriminant(&expected_kind)) {
+        return Err(format!("'{}': second token is {:?}, expected {:?}", show(&input), tag, expected_kind));
+    }
+    let name = t.tag_name();
+    if case.corrupt == Some(0) {
+        if let Ok((Some(n), _)) = &name {
+            return Err(format!("'{}': tag_name() returned {:?} although the name is not valid UTF-8", show(&input), n));
+        }
+    } else {
+        match &name {
+            Ok((Some(n), _)) if *n == case.name.to_lowercase() => {}
+            other => return Err(format!("'{}': the bytes of the tag name are valid UTF-8 ({:?}) but tag_name() returned {:?}", show(&input), case.name, other)),
+        }
+    }
+    if !case.end_tag {
+        for (k, (key, value, _)) in case.attrs.iter().enumerate() {
+            let got = t.tag_attr();
+            let corrupted = case.corrupt == Some(2 * k + 1) || case.corrupt == Some(2 * k + 2);
+            if corrupted {
+                if let Ok((Some(_), Some(_), _)) = &got {
+                    return Err(format!("'{}': tag_attr() #{k} succeeded although the attribute is not valid UTF-8", show(&input)));
+                }
+            } else {
+                match &got {
+                    Ok((Some(gk), Some(gv), _)) if *gk == key.to_lowercase() && gv == value => {}
+                    other => return Err(format!("'{}': the bytes of attribute #{k} are valid UTF-8 ({key:?}={value:?}) but tag_attr() returned {:?}", show(&input), other)),
+                }
+            }
+        }
+    }
+    Ok(())
+}
+
+fn random_tag_case(rng: &mut Rng) -> TagCase {
+    let end_tag = rng.chance(1, 5);
+    let name = rng.pick(&["a", "div", "DIV", "caf\u{e9}", "x-y", "Sp\u{e4}n", "p"]).to_string();
+    let n = if end_tag { 0 } else { rng.below(4) };
+    let mut attrs: Vec<(String, String, u8)> = Vec::new();
+    for k in 0..n {
+        let key = format!("{}{k}", rng.pick(&["href", "title", "DATA-x", "\u{e9}k", "lang"]));
+        let quote = rng.below(3) as u8;
+        let value = if quote == 0 { rng.pick(&["v", "caf\u{e9}", "\u{1f355}", "/x/y"]).to_string() } else { rng.pick(&["", "v", "a b", "caf\u{e9}", "\u{1f355} \u{65e5}", "a>b"]).to_string() };
+        attrs.push((key, value, quote));
+    }
+    let parts = if end_tag { 2 } else { 1 + 2 * attrs.len() };
+    let corrupt = if rng.chance(1, 6) { None } else { Some(rng.below(parts)) };
+    TagCase {
+        end_tag,
+        name,
+        attrs,
+        corrupt,
+        // invalid in every position: 0xFF / 0xFE never occur in UTF-8, 0xC0 is never a valid lead, 0x80 / 0xBF planted
+        // at a character boundary are stray continuation bytes
+        bad_byte: *rng.pick(&[0xffu8, 0xfe, 0xc0, 0x80, 0xbf]),
+        at: rng.below(16),
+    }
+}
+
 fn check_and_record(b: &[u8], enumerated: bool, ctx_label: &str, report: &mut Report) {
     check_and_record_mode(b, enumerated, ctx_label, "", true, report)
 }
@@ -480,6 +607,21 @@ pub fn run(ctx: &Ctx, _args: &Args) -> i32 {
                 check_and_record_mode(&input, false, "random-fragment", context, allow_cdata, report);
             }
         }
+        // tags built part by part, an invalid byte in at most one part
+        for _ in 0..ctx.tier.pick(20_000u64, 400_000u64) {
+            let case = random_tag_case(&mut rng);
+            report.eval();
+            match guarded(|| check_tag(&case)) {
+                Err(panic) => report.violation("panic", format!("tokenizer accessors panicked on {case:?}: {panic}"), json!({"tag": case})),
+                Ok(Err(m)) => report.violation("accessor", m, json!({"tag": case})),
+                Ok(Ok(())) => {
+                    report.count("constructed_tags_checked");
+                    if case.corrupt.is_some() {
+                        report.count("constructed_tags_with_one_invalid_part");
+                    }
+                }
+            }
+        }
         // short strings in every fragment context
         for (ci, context) in CONTEXTS.iter().enumerate() {
             for cdata in [true, false] {
@@ -536,6 +678,20 @@ pub fn run(ctx: &Ctx, _args: &Args) -> i32 {
 }
 
 pub fn replay(_ctx: &Ctx, case: &Value) -> i32 {
+    if let Some(tag) = case.get("tag") {
+        let failures = match serde_json::from_value::<TagCase>(tag.clone()) {
+            Err(e) => {
+                eprintln!("bad case: {e}");
+                return 2;
+            }
+            Ok(tc) => match guarded(|| check_tag(&tc)) {
+                Err(p) => vec![format!("panic: {p}")],
+                Ok(Err(m)) => vec![m],
+                Ok(Ok(())) => vec![],
+            },
+        };
+        return super::replay_verdict("C16", failures);
+    }
     let bytes = unhex(case.get("bytes_hex").and_then(|v| v.as_str()).unwrap_or(""));
     let context = case.get("context").and_then(|v| v.as_str()).unwrap_or("").to_string();
     let allow_cdata = case.get("allow_cdata").and_then(|v| v.as_bool()).unwrap_or(true);
